@@ -54,7 +54,7 @@ StepWriteL1(e) ==
   LET s == WriteCall(c.sch, w, OpOf(e)) IN
   IF e.res \in {"io", "panic"} THEN skip' = TRUE /\ UNCHANGED <<c, w, m>>          \* not modelled
   ELSE IF /\ e.res = s.res /\ e.dest_len = Len(s.w.dest) /\ e.dest_tail = Drop(s.w.dest, Len(w.dest))
-          /\ e.st.wbuf = Len(s.w.wbuf) /\ OpenEq(e.st.open, s.w.open)
+          /\ ("st" \in DOMAIN e) => (e.st.wbuf = Len(s.w.wbuf) /\ OpenEq(e.st.open, s.w.open))
        THEN w' = s.w /\ UNCHANGED <<c, m, skip>>
   ELSE Reject(l, <<"L1 write", c.n, e.k, "expected", s.res, Len(s.w.dest), Len(s.w.wbuf)>>) /\ skip' = TRUE /\ UNCHANGED <<c, w, m>>
 StepWriteMon(e) ==
